@@ -29,6 +29,7 @@ var scripts = map[string]func(rn *Runner){
 	"restorefail":  scriptRestoreFail,
 	"snapvote":     scriptSnapVote,
 	"restoreedge":  scriptRestoreEdge,
+	"deposeae":     scriptDeposeAE,
 }
 
 func (rn *Runner) el() time.Duration {
@@ -1225,5 +1226,62 @@ func scriptRestoreEdge(rn *Runner) {
 		time.Sleep(rn.el())
 		c.Net.Heal()
 		time.Sleep(5 * rn.el())
+	}
+}
+
+// scriptDeposeAE (C17, C08): a leader whose requests still arrive but whose answers are lost keeps writes
+// in flight that the followers have stored. One follower is told to campaign (a TimeoutNow, as a
+// leadership transfer would send it), wins without the leader hearing of it, commits those very entries
+// under its own term, and the first thing the old leader then receives may be an AppendEntries that
+// carries entries and a commit index covering its in-flight writes: it is deposed and told "committed"
+// in one step. Every one of its futures still has to be answered.
+func scriptDeposeAE(rn *Runner) {
+	c := rn.C
+	for round := 0; round < 5; round++ {
+		L := rn.stableLeader()
+		if L == nil {
+			return
+		}
+		o := rn.othersOf(L)
+		if len(o) < 2 {
+			return
+		}
+		rn.applyBurst(L, 1+rn.rng.Intn(3), "pa")
+		time.Sleep(rn.el() / 2)
+		if c.Leader() != L {
+			continue
+		}
+		var pairs [][2]string
+		for _, x := range o {
+			pairs = append(pairs, [2]string{x.name, L.name}) // nothing comes back to L
+		}
+		c.Net.CutMany(pairs)
+		l := L
+		rn.applyBurst(L, 1+rn.rng.Intn(4), "pin")
+		rn.bg(func() { c.Barrier(95, l, 50*time.Millisecond) })
+		if rn.rng.Intn(2) == 0 {
+			rn.bg(func() { c.Membership(91, l, "addnonvoter", c.Nodes[len(c.Nodes)-1], 0, 50*time.Millisecond) })
+		}
+		time.Sleep(time.Duration(1+rn.rng.Intn(3)) * time.Millisecond)
+		var F *Node
+		for _, x := range o {
+			if c.IsVoterNow(L, x) {
+				F = x
+				break
+			}
+		}
+		if F == nil {
+			c.Net.Heal()
+			continue
+		}
+		if in := F.Cur(); in != nil {
+			rn.note("L=%s hears nothing; F=%s is told to campaign", L.name, F.name)
+			rn.bg(func() {
+				in.tr.Inject(&raft.TimeoutNowRequest{RPCHeader: raft.RPCHeader{ProtocolVersion: 3, ID: []byte(l.name), Addr: []byte(l.name)}}, nil)
+			})
+		}
+		time.Sleep(time.Duration(2+rn.rng.Intn(8)) * time.Millisecond)
+		c.Net.Heal()
+		time.Sleep(4 * rn.el())
 	}
 }
